@@ -64,9 +64,12 @@ def strategy(tier):
     # a burst is a list of messages sent back to back; 'hold' (last element)
     # is how many frames of the *answering* direction arrive before the next
     # burst is sent (None: all) - the rest stays in flight, in order
+    # 'sdisc': while the burst is still in flight towards the server, the
+    # server ends another namespace of the client
     burst = st.tuples(st.lists(msg, min_size=1, max_size=4),
-                      st.sampled_from([None, None, None, 0, 1, 2, 3])).map(
-        lambda t: t[0] + [{'hold': t[1]}])
+                      st.sampled_from([None, None, None, 0, 1, 2, 3]),
+                      st.sampled_from([None, None, None, 0, 1, 2])).map(
+        lambda t: t[0] + [{'hold': t[1], 'sdisc': t[2]}])
     return st.fixed_dictionaries({
         'aio': st.booleans(),
         'serializer': st.sampled_from(['default', 'msgpack']),
@@ -151,12 +154,14 @@ def _run(case, ln):
         for m in burst:
             if 'hold' in m:
                 continue
-            ns = nss[m['ns'] % len(nss)]
             ev = 'message' if m['kind'].startswith('send') else m['event']
-            if (ns, ev) not in seen:
-                seen.add((ns, ev))
-                ssio.on(ev, mk_server(ns, ev), namespace=ns)
-                csio.on(ev, mk_client(ns, ev), namespace=ns)
+            # (on every namespace: the namespace a message index maps to
+            # changes when the server ends one of them)
+            for ns in nss:
+                if (ns, ev) not in seen:
+                    seen.add((ns, ev))
+                    ssio.on(ev, mk_server(ns, ev), namespace=ns)
+                    csio.on(ev, mk_client(ns, ev), namespace=ns)
 
     if aio:
         ln.run_client(lambda: csio.connect('http://h', namespaces=nss))
@@ -176,8 +181,10 @@ def _run(case, ln):
         clog.clear()
         exp = []
         hold = None
+        sdisc = None
         if 'hold' in burst[-1]:
             hold = burst[-1]['hold']
+            sdisc = burst[-1].get('sdisc')
             burst = burst[:-1]
         for mi, m in enumerate(burst):
             ns = nss[m['ns'] % len(nss)]
@@ -209,7 +216,7 @@ def _run(case, ln):
             if _interesting(data) or (kind in ('emit_cb', 'send_cb', 'call')
                                       and _interesting(ret)):
                 n_int += 1
-            slot = {'m': m, 'got': None, 'want': pack_args(ret)}
+            slot = {'m': m, 'got': None, 'want': pack_args(ret), 'ns': ns}
 
             def mk_cb(slot):
                 if aio:
@@ -250,6 +257,20 @@ def _run(case, ln):
                 if not strict_eq(r, want_r):
                     raise Violation('call-result', '%s: %r != %r'
                                     % (d, r, want_r))
+        if sdisc is not None and d == 'c2s' and len(nss) > 1:
+            busy = {nss[m['ns'] % len(nss)] for m in burst}
+            # (a namespace that still waits for an answer is left alone: its
+            # end would legitimately drop the callback)
+            busy |= {sl['ns'] for sl in cbs if not sl.get('calls')}
+            free = [n for n in nss if n not in busy]
+            if free:
+                ns_d = free[sdisc % len(free)]
+                ln.sh.do(ssio.disconnect(sids[ns_d], namespace=ns_d))
+                ln.pump(max_c2s=0)      # the client learns of it first
+                if ns_d in csio.namespaces:
+                    raise Violation('namespace-still-listed', ns_d)
+                nss.remove(ns_d)
+                labels['other_namespace_ended_mid_burst'] = True
         if hold is None:
             ln.pump()
         elif d == 'c2s':
